@@ -241,12 +241,16 @@ class ImplWorld:
     def _load(self, e, code, overwrite):
         self.eng[e].load_script_from_string(code, overwrite=overwrite)
 
+    def B(self, e):
+        """the object whose atom / functor / variable methods build the terms that the Python side hands to engine e"""
+        return self.eng[e]
+
     def op_assert(self, e, term, append):
         yp = self.eng[e]
         t = tt(term)
         vmap = {}
-        args = [impl.to_engine(yp, a, vmap) for a in (t[2] if t[0] == 'f' else ())]
-        yp.assert_fact(yp.atom(t[1]), args, append)
+        args = [impl.to_engine(self.B(e), a, vmap) for a in (t[2] if t[0] == 'f' else ())]
+        yp.assert_fact(self.B(e).atom(t[1]), args, append)
         return 'ok'
 
     def op_register(self, e, name, style, arity, rows, yields):
@@ -275,7 +279,7 @@ class ImplWorld:
         return ['atom', same, foreign]
 
     def _shared(self, e, t):
-        return impl.to_engine(self.eng[e], tt(t), self.shared.setdefault(e, {}))
+        return impl.to_engine(self.B(e), tt(t), self.shared.setdefault(e, {}))
 
     def op_unify(self, e, uid, t1, t2):
         g = iter(impl.engine.unify(self._shared(e, t1), self._shared(e, t2)))
@@ -290,7 +294,7 @@ class ImplWorld:
         yp = self.eng[e]
         t = tt(term)
         args = [self._shared(e, a) for a in (t[2] if t[0] == 'f' else ())]
-        yp.assert_fact(yp.atom(t[1]), args, append)
+        yp.assert_fact(self.B(e).atom(t[1]), args, append)
         return 'ok'
 
     def op_release(self, e, uid):
@@ -308,7 +312,7 @@ class ImplWorld:
         g = tt(goal)
         name, args = impl.goal_parts(g)
         vmap = {}
-        eargs = [impl.to_engine(yp, a, vmap) for a in args]
+        eargs = [impl.to_engine(self.B(e), a, vmap) for a in args]
         self.q[qid] = [yp.query(name, eargs), g, eargs]
         return 'ok'
 
@@ -339,7 +343,7 @@ class ImplWorld:
 
     def op_run(self, e, goal, limit):
         if not self.track_fresh:
-            st, out = impl.run_query(self.eng[e], tt(goal), limit)
+            st, out = impl.run_query(self.eng[e], tt(goal), limit, builder=self.B(e))
             return ['answers', out]
         # like run_query, but remembers every unbound Variable OBJECT that shows up in an answer: variables of a stored
         # fact are "fresh at every use", so an object seen in an earlier use must never come back (C13)
@@ -347,7 +351,7 @@ class ImplWorld:
         q = tt(goal)
         name, args = impl.goal_parts(q)
         vmap = {}
-        eargs = [impl.to_engine(yp, a, vmap) for a in args]
+        eargs = [impl.to_engine(self.B(e), a, vmap) for a in args]
         own = {id(v) for v in vmap.values()}
         out = []
         now = {}
@@ -402,7 +406,7 @@ def make_pyfunc(yp, rows, arity, style, yields, log):
     # fixed signature with exactly `arity` parameters (arity inferred from it)
     names = ['a%d' % i for i in range(arity)]
     src = 'def f(%s):\n    return solutions([%s])\n' % (', '.join(names), ', '.join(names))
-    ns = {'solutions': solutions}
+    ns = {'solutions': solutions, '__name__': 'userpreds'}      # like functions of an ordinary user module
     exec(src, ns)
     return ns['f']
 
@@ -412,26 +416,44 @@ def jn(x):
     return json.loads(json.dumps(x, default=str))
 
 
+class _CachingBuilder:
+    """builds terms for one engine, but keeps every atom object it once got (and can get atoms from another source)"""
+
+    def __init__(self, yp, make_atom):
+        self.yp = yp
+        self.cache = {}
+        self.make_atom = make_atom
+        self.variable = yp.variable
+        self.functor = yp.functor
+
+    def atom(self, name):
+        if name not in self.cache:
+            self.cache[name] = self.make_atom(name)
+        return self.cache[name]
+
+
 class CachedAtomsImplWorld(ImplWorld):
     """the Python side keeps the atom objects it once obtained (module-level constants such as TOM = yp.atom('tom')) and
-    goes on using them after clear(): atoms are compared by name, so that is as good as asking again"""
+    goes on using them after clear() - or builds them with the public Atom class, as examples/xpath does; atoms are
+    compared by name, so that is as good as asking the engine again.  The engine itself is not touched."""
+    own_atoms = False
 
     def op_engine(self, e):
         r = super().op_engine(e)
         yp = self.eng[e]
-        orig, cache = yp.atom, {}
-        yp.atom = lambda name: cache.setdefault(name, orig(name))     # used by the harness's term builder only
+        if not hasattr(self, 'builders'):
+            self.builders = {}
+        self.builders[e] = _CachingBuilder(yp, impl.Atom if self.own_atoms else yp.atom)
         for n in ('a', 'b', 'c', '[]', 'p', 'q', 'flag', 'z', 'eq', 'ne'):
-            yp.atom(n)                  # the constants exist from the start (before any clear())
+            self.builders[e].atom(n)                  # the constants exist from the start (before any clear())
         return r
 
-    def op_clear(self, e):
-        r = super().op_clear(e)
-        yp = self.eng[e]
-        # clear() rebuilt the context from self.atom, which is the caching function above: compiled code must go on
-        # asking the engine itself
-        yp.eval_context['atom'] = type(yp).atom.__get__(yp)
-        return r
+    def B(self, e):
+        return self.builders[e]
+
+
+class OwnAtomsImplWorld(CachedAtomsImplWorld):
+    own_atoms = True
 
 
 class FileLoadImplWorld(ImplWorld):
